@@ -46,7 +46,83 @@ def gen_cases(tier, seed):
                     "delays": "none" if mode == "wave" else "mixed",
                     "cfg": {"p_unpack": 0.0, "p_opq": 0.0, "p_lit": 0.1, "p_cont": 0.3, "p_hub": 0.2,
                             "out": extra.pop("force_out", None) or r.choice(["sinks", "node", "node", "struct", "none"])}})
+    for i in range(2 if tier == "quick" else 10):
+        out.append({"seed": env.seed_for(seed, ID, tier, "many_failures", i), "mode": "many_failures", "n": 150, "W": 1, "sched": "default"})
     return out
+
+
+def run_many_failures(desc):
+    """150 producer -> failing consumer pairs, one worker, max_errors=None, the bundled CONSOLE display as observer. The display keeps the
+    first 128 exceptions by design (they pin their calls' inputs); every failure beyond that cap has finished for good and its input must be
+    released when the next pair starts."""
+    import io
+    import sys
+
+    import uberjob
+    import uberjob.progress as up
+    import weakref
+
+    class Obj:
+        __slots__ = ("i", "__weakref__")
+
+        def __init__(self, i):
+            self.i = i
+
+    refs = {}
+    state = {"bad": None, "checked": 0}
+
+    def check_released(i):
+            gc.collect()
+            # one worker: every consumer that has started has also finished (failed) by now
+            for rank, j in enumerate(list(failed_order)):
+                if rank >= 135:
+                    wr = refs[j]
+                    state["checked"] += 1
+                    if wr() is not None and state["bad"] is None:
+                        state["bad"] = (f"start of call #{i}: the input of failing call #{j} (failure number {rank + 1}, beyond the display's cap of 128 stored "
+                                        f"exceptions) is still alive; held by {held_by(wr())}")
+
+    def producer(i):
+        def f():
+            check_released(i)
+            o = Obj(i)
+            refs[i] = weakref.ref(o)
+            return o
+        f.__name__ = f.__qualname__ = "produce"
+        return f
+
+    failed_order = []
+
+    def consumer(x):
+        check_released(x.i)
+        failed_order.append(x.i)
+        raise ValueError(f"consumer of #{x.i} fails")
+
+    plan = uberjob.Plan()
+    outs = []
+    prev = None
+    for i in range(desc["n"]):
+        p_ = plan.call(producer(i))
+        c_ = plan.call(consumer, p_)
+        if prev is not None:
+            plan.add_dependency(prev, p_)  # producer i+1 only after consumer i was attempted ... (a failed dependency would block it:)
+        outs.append(c_)
+        prev = p_
+    old = sys.stdout
+    sys.stdout = io.StringIO()
+    try:
+        try:
+            uberjob.run(plan, output=outs, max_workers=1, max_errors=None,
+                        progress=up.Progress(lambda: up.ConsoleProgressObserver(initial_update_delay=0.05, min_update_interval=0.05, max_update_interval=0.2)))
+        except uberjob.CallError:
+            pass
+    finally:
+        sys.stdout = old
+    res = {"status": "ok", "counters": {"many_failure_runs": 1, "results_checked_before_end": state["checked"], "runs": 1, "mode_many_failures": 1},
+           "nontrivial": state["checked"] > 0, "sig": f"many_failures|{desc['seed'] % 1000}"}
+    if state["bad"]:
+        res.update(status="violation", detail=state["bad"], mechanism="retained-result")
+    return res
 
 
 def held_by(obj):
@@ -115,6 +191,8 @@ def run_registry(desc):
 def run_case(desc):
     if desc["mode"] == "registry":
         return run_registry(desc)
+    if desc["mode"] == "many_failures":
+        return run_many_failures(desc)
     rng = random.Random(desc["seed"])
     ir = irmod.gen_ir(rng, desc["n"], family=desc["family"], rich=True, cfg=desc["cfg"])
     for n in ir.nodes:
